@@ -122,6 +122,15 @@ def run(ctx):
     esc = [x for x, _c in sm.escapes if x.exc == "InvalidSignature" and x.origin == "crypto"]
     ctx.ob("R2", "invalid-signature-propagates", site.loc(), "InvalidSignature from the crypto library %s" % ("escapes to the caller" if esc else "is swallowed"), bool(esc))
 
+    # "valid exactly when": the entry format gate must not be narrower than the OpenPGP entry
+    # grammar (any hex header string of whole bytes) - C15's deciders, re-evaluated here
+    from .c15 import predicate_exact, raiser_exact
+
+    for q, fn_ in (("common.checkformat_gpg_signature", raiser_exact), ("common.is_gpg_signature", predicate_exact)):
+        if q in eng.prog.funcs:
+            ok_, why_ = fn_(eng, q, "gpg")
+            ctx.ob("R2", "entry-grammar-exact|%s" % q, fn_site(eng, eng.walk(q)).loc(), "%s %s" % (q, "decides exactly the OpenPGP entry grammar" if ok_ else "does not decide exactly the OpenPGP entry grammar (valid entries are turned away or malformed ones let through): " + why_), ok_)
+
     # ---- R3 module chains
     n = 0
     for p in sm.paths:
